@@ -457,7 +457,22 @@ func c05JudgeText(text string, inNodes []*yaml.Node, rootScalar bool) (kind, det
 			return c05Tag("comment-lost", rootScalar), fmt.Sprintf("comment %q occurs %d times in the input and %d times in the output\noutput:\n%s--- input:\n%s", c, strings.Count(text, c), strings.Count(out, c), out, text)
 		}
 	}
-	if strings.HasPrefix(text, "---\n") != strings.HasPrefix(out, "---\n") || strings.Count(text, "\n---\n") != strings.Count(out, "\n---\n") {
+	// a start marker is a line that is `---` or begins with `--- ` (what follows on the line may move to a line of its own)
+	markers := func(s string) (first bool, n int) {
+		for i, l := range strings.Split(s, "\n") {
+			if l == "---" || strings.HasPrefix(l, "--- ") {
+				if i == 0 {
+					first = true
+				} else {
+					n++
+				}
+			}
+		}
+		return
+	}
+	inFirst, inN := markers(text)
+	outFirst, outN := markers(out)
+	if inFirst != outFirst || inN != outN {
 		return c05Tag("separators", rootScalar), fmt.Sprintf("document separators differ\noutput:\n%s--- input:\n%s", out, text)
 	}
 	out2, err2, pan2 := c05Identity(out)
@@ -483,6 +498,14 @@ var c05Hand = []struct{ name, text string }{
 	{"numbers-as-written", "a: 0x1F\nb: 1e3\nc: 1_000\nd: 0o17\ne: +1\nf: 1.50\n"},
 	{"timestamps-and-look-alikes", "a: 2021-01-01\nb: 2021-01-01T00:00:00Z\nc: 1:30\nd: yes\ne: 'yes'\n"},
 	{"document-end-marker", "a: 1\n...\n---\nb: 2\n"},
+	// a start marker with something behind it on the same line, in front of a first document that is empty or only a comment
+	{"start-marker-with-comment-empty-first", "--- # first is empty\n---\na: 1\n"},
+	{"start-marker-with-blank-empty-first", "--- \n---\na: 1\n"},
+	{"start-marker-with-comment-only", "--- # just a comment\n"},
+	{"start-marker-with-comment-then-content", "--- # c\na: 1\n---\nb: 2\n"},
+	{"header-then-start-marker-with-comment-empty-first", "# lead\n--- # c\n---\nb: 2\n"},
+	{"empty-first", "---\n---\na: 1\n"},
+	{"comment-only-first", "---\n# only\n---\nb: 2\n"},
 	{"empty-collections", "a: []\nb: {}\nc:\n  - []\n  - {}\n"},
 	{"nested-flow", "a: {b: [1, {c: 2}], d: []}\n"},
 	{"seq-in-map-indentation", "a:\n  - 1\n  - b: 2\n    c: 3\n"},
